@@ -47,11 +47,11 @@ def escape_for(ctx, pm, rl):
                   spec={'runner.tear_down_unneeded': 'optional'})
 
 
-def r1_r2_escape(ctx, rep):
-    rep.rule('C04.R1', 'of everything a layer setUp may raise, only MemoryError (and EndRun while '
+def r1_r2_escape(ctx, rep, R1='C04.R1', R2='C04.R2'):
+    rep.rule(R1, 'of everything a layer setUp may raise, only MemoryError (and EndRun while '
              'post-mortem debugging) can leave run_layer as an Exception; the rest is caught and '
              'recorded')
-    rep.rule('C04.R2', 'of everything a layer tearDown may raise, only MemoryError (and '
+    rep.rule(R2, 'of everything a layer tearDown may raise, only MemoryError (and '
              'CanNotTearDown when tear-down is not optional) leaves tear_down_unneeded; nothing but '
              'MemoryError leaves Runner.run_tests')
     hier = ctx.hier
@@ -65,7 +65,7 @@ def r1_r2_escape(ctx, rep):
             got = classes_of(e.tokens('runner.run_layer'), hier) - {'CanNotTearDown'}
             extra = got - allowed
             fi = ctx.model.func('runner.run_layer')
-            rep.check(not extra, 'C04.R1', 'run_layer [%s]: escaping Exception classes %s' % (
+            rep.check(not extra, R1, 'run_layer [%s]: escaping Exception classes %s' % (
                 cfgtxt, sorted(got)), 'exceptions of a layer setUp can leave run_layer: %s '
                 '(escape sets: %s)' % (sorted(extra), e.describe()),
                 key='run_layer escapes %s' % sorted(extra), func=fi.qualname,
@@ -77,7 +77,7 @@ def r1_r2_escape(ctx, rep):
                 al = {'MemoryError'} | (set() if opt else {'CanNotTearDown'})
                 extra = got - al
                 fi = ctx.model.func('runner.tear_down_unneeded')
-                rep.check(not extra, 'C04.R2', 'tear_down_unneeded(optional=%s) [%s]: escaping %s'
+                rep.check(not extra, R2, 'tear_down_unneeded(optional=%s) [%s]: escaping %s'
                           % (opt, cfgtxt, sorted(got)),
                           'exceptions of a layer tearDown can leave tear_down_unneeded: %s'
                           % sorted(extra), key='tear_down_unneeded(optional=%s) escapes %s'
@@ -87,7 +87,7 @@ def r1_r2_escape(ctx, rep):
             got = classes_of(e.tokens('runner.Runner.run_tests'), hier)
             extra = got - {'MemoryError'}
             fi = ctx.model.func('runner.Runner.run_tests')
-            rep.check(not extra, 'C04.R2', 'Runner.run_tests [%s]: escaping %s' % (cfgtxt, sorted(got)),
+            rep.check(not extra, R2, 'Runner.run_tests [%s]: escaping %s' % (cfgtxt, sorted(got)),
                       'an exception of a layer hook or test aborts Runner.run_tests: %s (escape '
                       'sets: %s)' % (sorted(extra), e.describe()),
                       key='Runner.run_tests escapes %s' % sorted(extra), func=fi.qualname,
@@ -111,13 +111,13 @@ def r1_r2_escape(ctx, rep):
             loops = [x.id for x in g.nodes if x.kind == 'for']
             if g.exit in r or any(lp in r for lp in loops):
                 ok = False
-        rule = 'C04.R1' if hook else 'C04.R2'
+        rule = R1 if hook else R2
         rep.check(ok, rule, '%s: the handler that contains a hook exception records it '
                   '(handle_layer_failure)' % q, 'an exception of the layer hook is swallowed in %s '
                   'without handle_layer_failure' % q, key=q + ':records', func=fi.qualname,
                   where=ctx.where(fi, fi.node))
         n += 1
-    rep.floor('C04.R1', n, 10, 'escape obligations')
+    rep.floor(R1, n, 10, 'escape obligations')
 
 
 def _witness(e, q, extra, specval=None):
@@ -132,8 +132,7 @@ def _witness(e, q, extra, specval=None):
     return None
 
 
-def r3_recorder(ctx, rep):
-    R = 'C04.R3'
+def r3_recorder(ctx, rep, R='C04.R3'):
     rep.rule(R, 'the failure recorder itself does not fail: it appends to errors on every path and '
              'uses a formatter method that only some formatters have only under a hasattr guard')
     fi = ctx.model.func('runner.handle_layer_failure')
